@@ -21,6 +21,13 @@ Added probe families (helpers in harness/s5_c13.py):
  * load() option histories: 2..4 generated definition sets that do not refer to each other, each with its own load() keyword options
    (align=, compiled=), loaded into one instance in shuffled orders, sometimes with failing load() calls in between: every set must
    have the signature it has when loaded with its own options into a fresh instance.
+ * name twins (generator feature, `twins` of gen_items; about 40 % of all definition sets, also those of the option histories): distinct
+   types that carry the same display name in unrelated definitions — locally tagged nested structs / unions (`struct entry {...}`, tags
+   are local to the member) with different bodies in different top-level definitions, declared as plain, pointer, fixed-array,
+   null-terminated and `[cnt & 3]` members, and the built-in pair int48 / uint48 (both displayed as "int48") with the same array counts;
+   scalar descriptions in the signature now include signedness.  The existing order / split / option-history probes then show whether a
+   type depends on which unrelated definition was loaded first.
+ * `order+split` mutants: a dependency-respecting permutation whose text is split over 2..4 load() calls.
 """
 from __future__ import annotations
 
@@ -445,7 +452,9 @@ def run(env) -> Result:
                 "typedef chains, re-declaration, unknown and cyclic aliases. distinct = (definition set, mutant text); non-trivial = >= 3 items. "
                 "rich comment mutants (bodies with //, /*, */, quotes, stars, slashes, newlines, adjacent comments, comment at start/end of text, "
                 "single-comment mutants); re-declaration probes (every declaration form x same/different target x same text / later load()); "
-                "load() option histories (independent definition sets with their own align=/compiled= options, shuffled, vs. a fresh instance each)")
+                "load() option histories (independent definition sets with their own align=/compiled= options, shuffled, vs. a fresh instance each); "
+                "name twins in ~40 % of the sets: same local struct/union tag with different bodies in unrelated definitions (plain, pointer, fixed, "
+                "null-terminated, member-sized array members), int48 next to uint48; permutations split over several load() calls")
     dc = impl.dc()
     rnd = mkrng(env["seed"], "c13")
     tier = env["tier"]
